@@ -11,6 +11,18 @@ CHECKS = {
    text="Inductive step decided by z3 for every Hypergraph shape within the bound, every mutator and in-place helper, with node labels, edge ids, id counter and all id arguments as unbounded solver integers: the two-way incidence relation, attribute records and a no-aliasing representation invariant hold after the call whether it returned or raised. Bounded model checking of one step from an arbitrary invariant state plus constructor base cases; histories follow by induction while states stay inside the size bound.",
    note="Trusted: CPython dict/set honouring __hash__/__eq__, z3 5.1 on linear integer arithmetic, the scount stub for itertools.count, the float()/int() shadows, SymRandom for random.sample; pre-states assume the invariant and Fresh (C04). Set iteration order follows builder insertion order.",
    technique="bounded symbolic execution of the real mutators (z3), inductive step over enumerated shapes with symbolic ids"),
+ "C02": dict(level=MC, ref="5/C02",
+   text="Same inductive step on DiHypergraph: every shape with each node-edge cell in {absent, tail, head, both} within the bound, every mutator, unbounded symbolic ids; tail/out and head/in agreement, no dangling ids, one attribute record each, no aliasing - after return or raise.",
+   note="As C01; pre-states assume the directed invariant and Fresh.",
+   technique="bounded symbolic execution of the real mutators (z3), inductive step over enumerated directed shapes"),
+ "C03": dict(level=MC, ref="5/C03",
+   text="Inductive step on SimplicialComplex from every downward-closed duplicate-free complex on <=3 (quick) / <=4 (thorough) vertices with symbolic labels, ids, members and max_order: closure, uniqueness, no empty simplex, two-way incidence, removal exactness, max_order respected; has_simplex exactness for a symbolic query on every shape.",
+   note="As C01. A large simplex (4-5 new vertices) under every max_order is driven by a dedicated op because general bulk arguments are bounded at 3 members.",
+   technique="bounded symbolic execution of the real SimplicialComplex mutators (z3), inductive step over enumerated complexes"),
+ "C04": dict(level=MC, ref="5/C04",
+   text="Fresh (counter above every integer id) decided as an inductive invariant for all three classes with the counter and every explicit id as unbounded solver integers (0, negative, non-increasing and colliding ids are in the model space), followed by one automatic addition that must collide with nothing; provenance base cases (constructors, from_* converters, in-memory parsers, generators, copy, pickle, relabelling, dual, <<, subhypergraph copy); explicit existing id refused with a warning and no change; update_uid_counter contract over all integers.",
+   note="As C01; ids that travel as strings (standard dict, text parsers) are enumerated over 0..3; float(idx) assumed exact (|id| < 2**53).",
+   technique="bounded symbolic execution (z3) of mutators + update_uid_counter with symbolic counter and ids; inductive invariant"),
 }
 NOT_APPLICABLE = {
  "C11": "disk round trips: every value that reaches a file passes through json/numpy C encoders which reject or realise a symbolic proxy, so no solver variable can cross the file boundary; in-memory halves are decided under C10/C04",
